@@ -59,6 +59,14 @@ def bytes_mode(rng, n):
     return out
 
 
+# valid and invalid byte sequences around every rule of UTF-8 validation
+UTF8_BORDER = [b"\xc2\x80", b"\xc1\xbf", b"\xc0\x80", b"\xdf\xbf", b"\xe0\xa0\x80", b"\xe0\x9f\xbf", b"\xe0\x80\x80",
+               b"\xed\x9f\xbf", b"\xed\xa0\x80", b"\xed\xbf\xbf", b"\xee\x80\x80", b"\xef\xbf\xbf", b"\xf0\x90\x80\x80",
+               b"\xf0\x8f\xbf\xbf", b"\xf4\x8f\xbf\xbf", b"\xf4\x90\x80\x80", b"\xf5\x80\x80\x80", b"\xf8\x88\x80\x80\x80",
+               b"\x80", b"\xbf", b"\xe2\x82", b"\xe2", b"\xf0\x9f\x98", b"a\xc2", b"\xc2a", b"\xe2\x82a", b"\xe2\x28\xa1",
+               b"\xfe", b"\xff"]
+
+
 def lines(rng, n):
     out = []
     for _ in range(n):
@@ -72,6 +80,10 @@ def lines(rng, n):
         if rng.random() < 0.2: argv += ["--fallback-oob", rng.choice(["", "G"])]
         nl = rng.randint(0, 6)
         pool = [b"", b"a", b"bc", "é".encode(), b"l 3", b"\r", b"x\ry"] + ([b"\xff"] if rng.random() < 0.1 else [])
+        if rng.random() < 0.25:
+            # the borders of what from_utf8 accepts: shortest forms, surrogates, the last code point
+            pool += [rand_scalar(rng).encode("utf-8", "surrogatepass") for _ in range(3)]
+            pool += [rng.choice(UTF8_BORDER)]
         ls = [rng.choice(pool) for _ in range(nl)]
         data = eol.join(ls) + (eol if ls and rng.random() < 0.7 else b"")
         out.append(Case(argv, data))
